@@ -117,6 +117,11 @@ func checkC05(c *Ctx) {
 	// ---- SENTINEL over package tree (+ fixture control)
 	ns := c.sentinelScan([]*packages.Package{tree}, true)
 	c.Extra["presence_tests"] = ns
+	c.Decides("OPT-OWN: no command (reroot outgroup --strict included) reads another command's option storage while leaving an own option of the same type unread (the option the user gives would be ignored)")
+	ncm, _ := c.optOwn("OPT-OWN", "a non-monophyletic outgroup is refused in strict mode")
+	if ncm < 80 {
+		c.Undecided("OPT-OWN", "scan-count", 0, fmt.Sprintf("only %d command literals seen (more than 80 confirmed by hand)", ncm))
+	}
 	c.Floor("SENTINEL", 10)
 	if fx := c.Fixture(); fx != nil {
 		sub := c.subCtx(fx)
